@@ -59,6 +59,7 @@ class World {
       t: (v) => !!v || true,
       c: (act, site) => self.condProbe(act, site),
       n: (v) => v,
+      ac: (e) => { if (!(e instanceof SimFault)) self.foreign(e, 'async iife') },
       q: (act, site) => {
         // a function or nothing (for optional calls on a non-member callee)
         const v = (self.visits.get(site) || 0) + 1
